@@ -34,6 +34,10 @@ structure St where
   cookies : List (Array UInt8) := []                -- cookies this endpoint issued (valid for COOKIE-ECHO)
   chans : List Nat := []                            -- stream ids that have a data channel
   lastReconfSn : Nat := 4294967295
+  seed : Nat := 0                                   -- the initial TSN this endpoint draws (harness-seeded, constant)
+  nextTsn : Nat := 0                                -- `next_tsn` (nothing is transmitted while the harness feeds packets)
+  peerCumAck : Nat := 0                             -- highest cumulative TSN the peer acknowledged
+  dcepBuf : List (Nat × Array UInt8) := []          -- `dcep_reassembly`: stream → partial DCEP message (absent = empty)
   ev : List (List Nat) := []                        -- events of the current packet (reversed)
   failed : Bool := false                            -- a handler returned `Err` (`?`): the rest of the packet is skipped
 
@@ -46,26 +50,45 @@ def handleDcepSt (s : St) (sid : Nat) : Cur St := do
   if mt = c07DcepTypeOpen then
     let body ← restSlice
     let r ← attemptD (onBuf (Buf.ofArray body) dcepOpenUnmarshal) ([], Buf.ofArray #[])
-    if ¬ r.1 then pure { s with failed := true } else       -- `DataChannelOpen::unmarshal(&data)?`
+    if ¬ r.1 then pure s else                               -- `DataChannelOpen::unmarshal(&data)?` — the caller drops the error
     match r.2.1 with
     | [ct, _prio, rel, labelLen, protoLen] =>
       let s : St := if s.chans.contains sid then s else
         { s with chans := sid :: s.chans }.emit
           [1000, sid, labelLen, protoLen, if ct / 128 % 2 = 0 then 1 else 0,
            if ct % 4 = 1 then rel % 65536 + 1 else 0, if ct % 4 = 2 then rel % 65536 + 1 else 0]
-      -- `send_dcep_ack(stream_id).await?`: `send_data_raw` refuses on a Closed association
-      pure (if s.state = 2 then { s with failed := true } else s)
+      -- `send_dcep_ack(stream_id).await?`: refused on a Closed association, but the caller only logs a DCEP error
+      pure s
     | _ => pure s
   else pure s
 
 /-- `process_data_payload(flags, chunk)` on a chunk value (TSN included) -/
-def processData (s : St) (v : Array UInt8) : Cur St := do
+def dcepGet (l : List (Nat × Array UInt8)) (sid : Nat) : Array UInt8 :=
+  match l.find? (fun e => e.1 = sid) with | some e => e.2 | none => #[]
+def dcepSet (l : List (Nat × Array UInt8)) (sid : Nat) (v : Array UInt8) : List (Nat × Array UInt8) :=
+  (sid, v) :: l.filter (fun e => e.1 ≠ sid)
+
+def processData (s : St) (flags : Nat) (v : Array UInt8) : Cur St := do
   let r ← onBuf (Buf.ofArray v) (do
     advance 4
     let sid ← getU16
     let _ssn ← getU16
     let ppid ← getU32
-    if ppid = c07PpidDcep then handleDcepSt s sid
+    if ppid = c07PpidDcep then
+      -- a DCEP message is collected from its B fragment to its E fragment
+      let bBit := flags / 2 % 2 = 1
+      let eBit := flags % 2 = 1
+      if bBit ∧ eBit then handleDcepSt s sid
+      else
+        let data ← restSlice
+        let cur := if bBit then #[] else dcepGet s.dcepBuf sid
+        if ¬ bBit ∧ cur.size = 0 then pure s else          -- a middle / end fragment without a beginning
+        alloc data.size
+        let msg := cur ++ data
+        if ¬ eBit then pure { s with dcepBuf := dcepSet s.dcepBuf sid msg }
+        else
+          let r ← onBuf (Buf.ofArray msg) (handleDcepSt { s with dcepBuf := s.dcepBuf.filter (fun e => e.1 ≠ sid) } sid)
+          pure r.1
     else
       alloc (← remaining)                               -- reassembly append when the channel exists
       pure s)
@@ -84,7 +107,7 @@ def drainBody (cum : Nat) (st : List (Nat × Nat × Array UInt8) × List (Nat ×
 def processBatch : St → List (Nat × Nat × Array UInt8) → Cur St
   | s, [] => pure s
   | s, e :: rest => do
-    let s ← processData s e.2.2
+    let s ← processData s e.2.1 e.2.2
     if s.failed then pure s else                          -- `?`: the rest of the batch is dropped, cum not advanced
     processBatch { s with cum := u32add s.cum 1 } rest
 
@@ -95,7 +118,7 @@ def handleDataSt (s : St) (flags : Nat) (v : Array UInt8) : Cur St := do
   let diff := u32sub tsn s.cum
   if diff = 0 ∨ diff > 2147483648 then pure s else
   if diff = 1 ∧ s.queue.isEmpty then
-    let s ← processData s v
+    let s ← processData s flags v
     pure (if s.failed then s else { s with cum := tsn })
   else
     let q := if s.queue.any (fun e => e.1 = tsn) then s.queue else (tsn, flags, v) :: s.queue
@@ -123,7 +146,7 @@ def handleInitSt (s : St) : Cur St := do
   let tsn ← getU32
   let duplicate := s.hasTag ∧ s.remoteTag = tag
   if duplicate ∧ s.state = 1 then pure s else
-  pure ({ s with peerRwnd := rwnd, remoteTag := tag, cum := u32pred tsn, hasTag := true }.emit [2])
+  pure ({ s with peerRwnd := rwnd, remoteTag := tag, cum := u32pred tsn, hasTag := true, nextTsn := s.seed }.emit [2])
 
 /-- `handle_init_ack(chunk)`: only while the T1 timer holds our INIT -/
 def handleInitAckSt (s : St) : Cur St := do
@@ -140,18 +163,20 @@ def handleInitAckSt (s : St) : Cur St := do
   | some ck => pure ({ s with t1 := 2, peerRwnd := rwnd, remoteTag := tag, cum := u32pred tsn }.emit [10, foldA ck, ck.size])
   | none => pure { s with t1 := 0, peerRwnd := rwnd, remoteTag := tag, cum := u32pred tsn }
 
+/-- `tsn_gt(a, b)`: `(a.wrapping_sub(b) as i32) > 0` -/
+def tsnGt (a b : Nat) : Bool := 0 < u32sub a b ∧ u32sub a b < 2147483648
+
 def handleSackSt (s : St) : Cur St := do
   if (← remaining) ≥ 12 then
-    let _cum ← getU32
+    let cumAck ← getU32
     let rwnd ← getU32
     let num ← getU16
     let _dups ← getU16
     let _ ← loopM (sackGapsBody num) (num + 1) 0
-    pure { s with peerRwnd := rwnd }
+    -- a SACK whose cumulative TSN is behind the one already acknowledged was overtaken: its a_rwnd is old news
+    pure { s with peerRwnd := if tsnGt s.peerCumAck cumAck then s.peerRwnd else rwnd,
+                  peerCumAck := if tsnGt cumAck s.peerCumAck then cumAck else s.peerCumAck }
   else pure s
-
-/-- `tsn_gt(a, b)`: `(a.wrapping_sub(b) as i32) > 0` -/
-def tsnGt (a b : Nat) : Bool := 0 < u32sub a b ∧ u32sub a b < 2147483648
 
 /-- after FORWARD-TSN: "chunks that were waiting behind the skipped TSNs are in order now" -/
 def fwdDrainBody (s : St) : Cur (St ⊕ St) := do
@@ -159,7 +184,7 @@ def fwdDrainBody (s : St) : Cur (St ⊕ St) := do
   match s.queue.find? (fun e => e.1 = next) with
   | none => pure (.inr s)
   | some e =>
-    let s' ← processData { s with queue := s.queue.filter (fun x => x.1 ≠ next) } e.2.2
+    let s' ← processData { s with queue := s.queue.filter (fun x => x.1 ≠ next) } e.2.1 e.2.2
     if s'.failed then pure (.inr s') else pure (.inl { s' with cum := next })
 
 def handleForwardTsnSt (s : St) : Cur St := do
@@ -209,9 +234,9 @@ def handleChunkSt (s : St) (ct flags : Nat) (v : Buf) : Cur St := do
       let ck ← restSlice
       if ¬ s.cookies.contains ck then pure s else
       let s := s.emit [11]
-      pure (if s.state = 1 then s else { s with state := 1 })
+      pure (if s.state = 1 then s else { s with state := 1, peerCumAck := u32pred s.nextTsn })
     else if ct = 11 then                                 -- COOKIE-ACK
-      pure (if s.t1 ≠ 2 then s else { s with t1 := 0, state := 1 })
+      pure (if s.t1 ≠ 2 then s else { s with t1 := 0, state := 1, peerCumAck := u32pred s.nextTsn })
     else if ct = c07CtData then do
       let body ← restSlice
       handleDataSt s flags body
